@@ -128,7 +128,11 @@ func (c *PublishHeader) WriteHTMLTo(w io.Writer) (int64, error) {
 // for each Publisher (see NewPublisher), never once for the whole process:
 // another document, or the same document later on, has other surnames.
 func getSurnames(document *gedcom.Document, options *PublishShowOptions) *gedcom.StringSet {
-	if options != nil && options.surnames != nil {
+	// The options can be shared with a Publisher for another document that
+	// was created in the meantime. Its surnames are not the surnames of this
+	// document.
+	if options != nil && options.surnames != nil &&
+		options.surnamesDocument == document {
 		return options.surnames
 	}
 
